@@ -44,6 +44,30 @@ func F(a int, b int, s string, xs []int, big [4096]byte) (int, string) {
 func G(p *struct{ x int }) int { return (*p).x }
 `
 
+const c08A2 = `package a
+
+func F2(A int, big [4096]byte) int {
+	B := A
+	return B + int(big[0])
+}
+
+func G2(p *struct{ y int }) int { return (*p).y }
+
+func H2(x, y int) bool {
+	if x == 1 {
+		return true
+	} else if x == 2 {
+		return false
+	} else if y == 3 {
+		return true
+	}
+	return x == x
+}
+
+//another unformatted comment
+var V2 = 1
+`
+
 const c08ATest = `package a
 
 import "testing"
@@ -122,9 +146,9 @@ func c08(args []string) int {
 	base := filepath.Join(harness.WorkDir(), "c08")
 	workspaces := map[string]map[string]string{
 		"single":   {"go.mod": "module w\n\ngo 1.21\n", "a/a.go": c08A},
-		"intests":  {"go.mod": "module w\n\ngo 1.21\n", "a/a.go": c08A, "a/a_test.go": c08ATest},
+		"intests":  {"go.mod": "module w\n\ngo 1.21\n", "a/a.go": c08A, "a/a2.go": c08A2, "a/a_test.go": c08ATest},
 		"exttests": {"go.mod": "module w\n\ngo 1.21\n", "a/a.go": c08A, "a/a_test.go": c08ATest, "a/ext_test.go": c08AExtTest},
-		"three":    {"go.mod": "module w\n\ngo 1.21\n", "a/a.go": c08A, "a/a_test.go": c08ATest, "b/b.go": c08B, "c/c.go": c08C},
+		"three":    {"go.mod": "module w\n\ngo 1.21\n", "a/a.go": c08A, "a/a2.go": c08A2, "a/a_test.go": c08ATest, "b/b.go": c08B, "c/c.go": c08C},
 	}
 	for name, files := range workspaces {
 		writeTree(filepath.Join(base, name), files)
@@ -137,7 +161,7 @@ func c08(args []string) int {
 		c08Cfg{"enable-all-go1.13", []string{"-enableAll", "-go=1.13"}, []string{"-enable-all", "-go=1.13"}},
 		c08Cfg{"enable-all-go1.18", []string{"-enableAll", "-go=go1.18"}, []string{"-enable-all", "-go=go1.18"}},
 	)
-	lists := [][2]string{{"#diagnostic", ""}, {"#style", "#experimental"}, {"#performance", ""}, {"#diagnostic,#style,#performance", "#opinionated"},
+	lists := [][2]string{{"hugeParam,underef,captLocal,ifElseChain", "#performance"}, {"underef,ifElseChain,hugeParam", "#style"}, {"#diagnostic,underef", "#style,#experimental"}, {"#diagnostic", ""}, {"#style", "#experimental"}, {"#performance", ""}, {"#diagnostic,#style,#performance", "#opinionated"},
 		{"assignOp,hugeParam,ifElseChain,underef", ""}, {"#style,hugeParam", "assignOp"}, {"commentFormatting,captLocal,dupSubExpr", ""}, {"#experimental", "#performance"}}
 	for _, l := range lists {
 		cfgs = append(cfgs, c08Cfg{"enable=" + l[0] + ",disable=" + l[1], []string{"-enable=" + l[0], "-disable=" + l[1]}, []string{"-enable=" + l[0], "-disable=" + l[1]}})
